@@ -152,11 +152,9 @@ def _cb_native(c, p):
     def fake(wngrid=None, wngrid_width=None):
         trace.append(('FluxBinner', 'wavenumberGrid' if wngrid is g else '?', 'binWidths' if wngrid_width is w else '?'))
         return 'binner'
-    tb.FluxBinner = fake
-    try:
+    from pyvc.unit import patched
+    with patched(saved, fake):
         r = _S.__new__(_S).create_binner()
-    finally:
-        tb.FluxBinner = saved
     return r, dict(p, __trace__=trace)
 
 
@@ -211,11 +209,9 @@ def _ai_native(c, p):
             trace.append(('_process_spectrum',))
             self._bin_widths = np.ones(len(self._obs_spectrum))
     saved = mod.wnwidth_to_wlwidth
-    mod.wnwidth_to_wlwidth = lambda a, b: (trace.append(('wnwidth_to_wlwidth',)), np.ones(len(a)))[1]
-    try:
+    from pyvc.unit import patched
+    with patched(saved, lambda a, b: (trace.append(('wnwidth_to_wlwidth',)), np.ones(len(a)))[1]):
         _A(np.array(p['spectrum'], dtype=float))
-    finally:
-        mod.wnwidth_to_wlwidth = saved
     return None, dict(p, __trace__=trace)
 
 
